@@ -15,6 +15,7 @@ import numpy as np
 from . import common as C
 from .common import ctx_for
 from . import taylor
+from engine.core import Undecided
 from engine import fpcheck
 
 HARNESS = C.Harness("h_core.cpp", assertions=True, extra_defines=["VS_STUB_LARGE_INVERSE", "VS_NO_SMALLADJ"])
@@ -29,6 +30,8 @@ def prebuild_targets(tier):
 def run(rep, tier, seed):
     groups = C.groups_for(tier, bundles=False)
     errs = HARNESS.build(groups)
+    from . import c09
+    c09.HARNESS.build(groups, native=False)      # (subset-of-outputs scenarios, see check_subsets)
     rep.trust("REAL: machine arithmetic treated as mathematical",
               "A-TRIG: sin^2+cos^2=1, angle-multiple (Chebyshev) rewriting, sin'=cos, cos'=-sin",
               "A-SQRT: sqrt(a)^2=a, sqrt'=1/(2 sqrt); A-ATAN2: sin/cos of atan2(y,x) = y/r, x/r and its derivative",
@@ -48,15 +51,17 @@ def run(rep, tier, seed):
         nsh = 8 if g in ("SE3", "SE_2_3", "SGal3") else 1      # log of the large groups: one worker per path (mod 8)
         for i in range(nsh):
             items.append((g, lambda r, g_, t_, s_, i=i, nsh=nsh: check_primitives(r, g_, t_, s_, only="log", shard=(i, nsh))))
+        items.append((g, check_tangent_ops))
+        items.append((g, check_subsets))
         if g in DERIVED_QUICK or (tier != "quick" and g in DERIVED_THOROUGH):
             for fn in ("rplus", "lplus", "rminus", "lminus", "between"):
                 nsh = 4 if g in ("SE3", "SE_2_3", "SGal3") else 1
                 for i in range(nsh):
                     items.append((g, lambda r, g_, t_, s_, fn=fn, i=i, nsh=nsh: check_derived(r, g_, t_, s_, only=fn, shard=(i, nsh))))
     rep.parallel(items, lambda r, it: it[1](r, it[0], tier, seed))
-    rep.not_run.append("chain-rule Jacobians of rplus/lplus/rminus/lminus/between by direct differentiation for SE_2_3, SGal3 (SE3: thorough tier) "
-                       "(two symbolic elements through log: too slow); the generic layer is the same code for every group (C04 rule) and is "
-                       "differentiated here for SO2, SE2, SO3, Rn (quick) and SE3 (thorough); rplus/rminus additionally through dual numbers (C12)")
+    rep.not_run.append("Jacobians of rplus/lplus/rminus/lminus/between by direct differentiation for SGal3 (SE_2_3: thorough tier only) "
+                       "(two symbolic 10-DoF elements through log: too slow); the generic layer is the same code for every group (C04 rule) and is "
+                       "differentiated here for SO2, SE2, SO3, SE3, Rn (quick) and SE_2_3 (thorough); rplus/rminus additionally through dual numbers (C12)")
 
 
 DERIVED_QUICK = ["SO2", "SE2", "SO3", "R3", "SE3"]
@@ -89,6 +94,39 @@ def check_derived(rep, g, tier, seed, only=None, shard=(0, 1)):
     for c in (take(_paths(rep, g, "between", [("x", "G"), ("y", "G")], seed, "between")) if sel("between") else []):
         taylor.with_taylor(c, TAU, lambda c=c: (c.deriv_group("J_a", c.vec("out"), c.out("Ja"), "x"),
                                                  c.deriv_group("J_b", c.vec("out"), c.out("Jb"), "y")))
+
+
+def check_tangent_ops(rep, g, tier, seed):
+    """TangentBase::plus / minus (Tangent, Tangent): vector sum / difference with Jacobians +-Identity"""
+    C.check_anchor(rep, "TangentBase::plus(Tangent)", "include/manif/impl/tangent_base.h", r"\bplus\(")
+    C.check_anchor(rep, "TangentBase::minus(Tangent)", "include/manif/impl/tangent_base.h", r"\bminus\(")
+    HARNESS.prefetch(g, ["tplus", "tminus"])
+    for scn, sign in (("tplus", 1), ("tminus", -1)):
+        for c in _paths(rep, g, scn, [("a", "T"), ("b", "T")], seed, scn):
+            a, b = np.asarray(c.E["a"], dtype=object), np.asarray(c.E["b"], dtype=object)
+            c.eq("value", c.vec("out"), a + b * sign)
+            c.no_poison("Ja_written", c.out("Ja"))
+            c.no_poison("Jb_written", c.out("Jb"))
+            c.deriv_vec("J_a", c.vec("out"), c.out("Ja"), "a")
+            c.deriv_vec("J_b", c.vec("out"), c.out("Jb"), "b")
+
+
+def check_subsets(rep, g, tier, seed):
+    """the obligations above differentiate the call that requests every Jacobian; a Jacobian requested ALONE must be the
+    same function of the inputs (same expression DAG in one execution) - otherwise a branch taken only for a partial
+    request (e.g. `if (J_b && !J_a)`) would escape.  (Same rule as C09, restricted to the Jacobians.)"""
+    from . import c09
+    errs = c09.HARNESS.build([g], native=False)
+    if g in errs:
+        raise Undecided("harness h_pure.cpp does not build for %s" % g)
+    c09.HARNESS.prefetch(g, ["subsets_" + op for op in c09.SUBSETS2])
+    for op in c09.SUBSETS2:
+        for path in c09.HARNESS.paths(g, "subsets_" + op):
+            if path.thrown:
+                continue
+            L = "C05/%s/%s_subsets[%s]" % (g, op, path.script)
+            c09.same(rep, L, path, "Ja_a", "Ja_ab", "first_jacobian_requested_alone_equals_requested_together")
+            c09.same(rep, L, path, "Jb_b", "Jb_ab", "second_jacobian_requested_alone_equals_requested_together")
 
 
 def _paths(rep, g, scn, decl, seed, label):
